@@ -346,7 +346,7 @@ func Run(tier string, sh lib.Shard, rep *lib.Report) {
 	if prop == "C12" {
 		rep.Require("requests_passed_during_recovery", "requests_refused_during_recovery", "returns_to_standby", "re_trips_from_recovery")
 	} else {
-		rep.Require("trips_observed", "requests_shielded_while_tripped", "requests_passed_during_recovery", "returns_to_standby")
+		rep.Require("trips_observed", "requests_shielded_while_tripped", "requests_passed_during_recovery", "returns_to_standby", "prepared_states_retripped_mid_recovery")
 	}
 	for _, cfg := range cfgs {
 		m := model(cfg, prop, tier, depth)
@@ -380,7 +380,18 @@ func Run(tier string, sh lib.Shard, rep *lib.Report) {
 			advF := op(fmt.Sprintf("Advance(%v)", cfg.fallback))
 			advR := op(fmt.Sprintf("Advance(%v)", cfg.recovery/2))
 			if bad >= 0 && ok >= 0 && advF >= 0 && advR >= 0 {
-				for _, root := range [][]int{{bad, advF, ok}, {bad, advF, ok, advR, ok, advR, bad}} {
+				// the third prepared state is a re-trip in the MIDDLE of recovery (three refusals at ramp 0, then at half
+				// the recovery period the first admitted request fails): the shield must last a full fallback period
+				// from THAT trip, not until the end of the abandoned recovery window
+				for _, root := range [][]int{{bad, advF, ok}, {bad, advF, ok, advR, ok, advR, bad}, {bad, advF, ok, ok, ok, advR, bad}} {
+					probe := m.New()
+					last := ""
+					for _, o := range root {
+						last = m.Apply(probe, o)
+					}
+					if strings.HasPrefix(last, "recovering>tripped") {
+						rep.Count("prepared_states_retripped_mid_recovery")
+					}
 					m2 := model(cfg, prop, tier, 5) // five more operations beyond the prepared state
 					m2.Name += fmt.Sprintf("/from-prepared-state-%d", len(root))
 					m2.Shard, m2.ShardLevel = sh, 2
